@@ -249,6 +249,9 @@ Init == /\ routes = {} /\ sinks = <<>> /\ statics = <<>> /\ sbs \in BOOLEAN /\ n
 
 Put(seq, x) == IF NewestFirst THEN <<x>> \o seq ELSE Append(seq, x)
 
+(* the methods a resource implements under a suffix = the methods for which it has a CALLABLE attribute
+   on_<method>[_<suffix>].  Attributes of such a name holding data, and whether the resource object itself is
+   truthy, are deliberately no part of the model: the harness rotates over them and the decision must not change *)
 ImplOf(kind, sfx) == IF sfx = "" THEN kind.plain ELSE kind.sfx
 
 (* effects of the accepted calls (also used, unguarded, by the trace judge) *)
